@@ -21,7 +21,7 @@ func init() {
 		Level: "other",
 		Explanation: "Decided (structural necessary conditions of determinism / non-interference): (R3.1) no module function reachable from the exported API writes package-level memory after initialisation and no goroutine is started, so extractions on distinct values share no mutable memory; (R3.2) every range-over-map loop is commutative, sorted before use, or explicitly justified, so no output depends on Go's randomised map order; (R3.3) option chaining copies every configuration field (clone completeness, shared with C10). " +
 			"Not decided: byte equality of outputs itself, determinism of the standard library, races inside one Extractor shared by two goroutines.",
-		Rules: []func(*eng.Ctx){rulePoolPutCarriesNoState, ruleDecodersLeaveInput, ruleCloseClearsOnlyOwned, ruleSelectionReadonly, rulePooledObjectsStayInside, ruleRenderLeavesReader, ruleNoPkgState, ruleMapOrder, ruleCloneComplete, ruleGlobalTableAlias, ruleCheckerPerPass, ruleMemoOnSuccess, ruleParsedDictsReadOnly, ruleCacheKeyAgreement, ruleInputReadonly, ruleReadOnlyExports},
+		Rules: []func(*eng.Ctx){ruleExtractorTextKeepsCharactersEvaluated, rulePoolPutCarriesNoState, ruleDecodersLeaveInput, ruleCloseClearsOnlyOwned, ruleSelectionReadonly, rulePooledObjectsStayInside, ruleRenderLeavesReader, ruleNoPkgState, ruleMapOrder, ruleCloneComplete, ruleGlobalTableAlias, ruleCheckerPerPass, ruleMemoOnSuccess, ruleParsedDictsReadOnly, ruleCacheKeyAgreement, ruleInputReadonly, ruleReadOnlyExports},
 	})
 }
 
@@ -563,6 +563,23 @@ func classifyLoop(info *types.Info, fd *eng.FuncDecl, rs *ast.RangeStmt, after [
 				if !isTainted(r) {
 					continue
 				}
+				// x = insertSorted(x, key): a helper of the module that places the key by binary search keeps the slice
+				// sorted and duplicate-free whatever order the keys arrive in
+				if call, ok := r.(*ast.CallExpr); ok && len(call.Args) >= 1 && mapOrderProg != nil {
+					if ro := rootObj(call.Args[0]); ro != nil && ro == o {
+						var callee *types.Func
+						switch f := call.Fun.(type) {
+						case *ast.Ident:
+							callee, _ = info.Uses[f].(*types.Func)
+						case *ast.SelectorExpr:
+							callee, _ = info.Uses[f.Sel].(*types.Func)
+						}
+						if callee != nil && sortedInsertHelper(mapOrderProg, callee) {
+							notes = append(notes, "sorted insert")
+							continue
+						}
+					}
+				}
 				// max/min without capturing the key: if a > b { b = a }
 				if be, ok := guard.(*ast.BinaryExpr); ok && (be.Op == token.GTR || be.Op == token.LSS || be.Op == token.GEQ || be.Op == token.LEQ) {
 					le, re := types.ExprString(be.X), types.ExprString(be.Y)
@@ -1053,4 +1070,29 @@ func keysOnlyNameMapEntries(p *eng.Prog, fnName, varName string) bool {
 		})
 	}
 	return n > 0 && all
+}
+
+
+// sortedInsertHelper: a function of the module whose body looks the key up with sort.Search* in its first parameter
+// (and so inserts at the sorted position).
+func sortedInsertHelper(p *eng.Prog, f *types.Func) bool {
+	for _, fn := range p.ModuleFuncs() {
+		if fn.Object() != types.Object(f) || fn.Blocks == nil || len(fn.Params) < 2 {
+			continue
+		}
+		found := false
+		for _, ci := range eng.Calls(fn, false, func(nm string, _ ssa.CallInstruction) bool {
+			return nm == "sort.SearchStrings" || nm == "sort.SearchInts" || nm == "sort.Search" || strings.HasPrefix(nm, "slices.BinarySearch")
+		}) {
+			args := ci.Common().Args
+			if len(args) > 0 && args[0] == ssa.Value(fn.Params[0]) {
+				found = true
+			}
+			if eng.CalleeName(ci) == "sort.Search" {
+				found = true
+			}
+		}
+		return found
+	}
+	return false
 }
